@@ -205,7 +205,7 @@ def gen_program(rng: random.Random, tier: str = "quick") -> dict:
         elif r < 0.85:
             mesh_calls.append(["geometry", {rng.choice(labels + ["other"]): ["type searchablePlane", "planeType pointAndNormal", f"basePoint ({rng.randint(0, 3)} 0 0)"]}])
         else:
-            mesh_calls.append(["setting", rng.choice(["scale", "mergeType", "prescale", "verbose", "checkFaceCorrespondence"]), rng.choice([0.001, "points", "(1 1 2)", "true", 1, None])])
+            mesh_calls.append(["setting", rng.choice(["scale", "mergeType", "prescale", "verbose", "checkFaceCorrespondence"]), rng.choice([0.001, "points", "(1 1 2)", "true", 1, None, 2.5e-05, 0.30000000000000004, 1e16, -0.75, 12345678])])
     # every label that an operation is projected to is defined by the user (the property's premise)
     mesh_calls.append(["geometry", {l: ["type searchableSphere", "centre (0 0 0)", "radius 1"] for l in labels}])
     rng.shuffle(mesh_calls)
@@ -511,7 +511,16 @@ def _g_entries(d: Dict[str, List[str]]) -> List[List[str]]:
 def request_words(decl: dict, case: dict, settings: Dict[str, Any], tails: List[Optional[List[List[str]]]]) -> List[str]:
     """protocol words of the declaration (see CBV/Model/C06.lean, section 5)"""
     words: List[str] = []
-    st = [[w_str(k)] + w_toks(tokenize(str(v))) for k, v in settings.items() if v is not None]
+    import numpy as np
+
+    st = []
+    for k, v in settings.items():
+        if v is None:
+            continue
+        if not isinstance(v, (bool, np.bool_)) and isinstance(v, (int, float, np.integer, np.floating)):
+            st.append([w_str(k), "N", _pynum_word(v)])  # the model prints the number (str(int) / shortest repr)
+        else:
+            st.append([w_str(k), "S"] + w_toks(tokenize(str(v))))
     words += w_list(st)
 
     def calls(name, which):
@@ -624,7 +633,9 @@ class C06(core.Check):
         # malformed stream: ill-formed requests must be answered `bad-op`, unbalanced files `noparse`
         cases += [
             {"kind": "protocol", "req": "c06.render 0 0 0 0", "want": "bad-op"},
-            {"kind": "protocol", "req": "c06.render 1 =scale 1 =( 0 0 0 0 ! 0 0 0", "want": "bad-op"},
+            {"kind": "protocol", "req": "c06.render 1 =scale S 1 =( 0 0 0 0 ! 0 0 0", "want": "bad-op"},
+            {"kind": "protocol", "req": "c06.render 1 =scale N X1 0 0 0 0 ! 0 0 0 0", "want": "bad-op"},
+            {"kind": "protocol", "req": "c06.file vertices 0 0 0 0 0 ! 0 0 0 0", "want": "bad-op"},
             {"kind": "protocol", "req": "c06.render 0 0 0 0 0 ! 0 0 0 extra", "want": "bad-op"},
             {"kind": "protocol", "req": "c06.vtk x", "want": "bad-op"},
             {"kind": "protocol", "req": "c06.nothing", "want": "bad-op"},
